@@ -12,6 +12,9 @@ pub fn seed() -> u64 {
 pub fn sym_scalar(name: &str, kind: &str) -> Scalar {
     Scalar::sym(name, kind)
 }
+pub fn seed_variant_topbyte(_s: &Scalar, idx: usize) -> Scalar {
+    Scalar::sym(&format!("seed_topbyte_{}", idx), "seed")
+}
 pub fn free_point(_name: &str) -> RistrettoPoint {
     RistrettoPoint::free()
 }
